@@ -445,6 +445,10 @@ func init() {
 			if wt != "" {
 				add(wt, env, sizerBin(), sargs...) // linked worktree
 			}
+			if in[3] != "-" {
+				// the caller's environment names the graft file explicitly
+				add(w, envWith(env, "GIT_GRAFT_FILE="+filepath.Join(rr.dir, "info", "grafts")), sizerBin(), sargs...)
+			}
 			var codes, hashes []string
 			for _, x := range results {
 				codes = append(codes, strconv.Itoa(x.code))
